@@ -43,6 +43,8 @@ struct ccase {
     double connect_timeout, dns_timeout;
     int first_obs;      /* 0 finish 1 send 2 receive */
     bool server_unresolvable;   /* xcm_server on a name that does not resolve */
+    bool shaped;
+    bool local_busy;            /* the configured local address and port are taken: every bind fails, nothing may connect from elsewhere */
 };
 
 static const char *proto(enum vtp tp) { return tp == TP_TCP ? "tcp" : tp == TP_TLS ? "tls" : tp == TP_BTCP ? "btcp" : tp == TP_BTLS ? "btls" : "utls"; }
@@ -95,6 +97,21 @@ static void gen_case(struct ccase *c, long idx, vrng *r)
         if (d->beh == B_NOANSWER) nna++;
     }
     if (c->n > 8 && vrnd_p(r, 60)) c->c[vrnd_n(r, (uint32_t)c->n)].beh = B_ACCEPT;     /* possibly beyond the 32nd entry */
+    /* directed shapes: one family fails at once while the other is still waiting for an answer and succeeds (or fails) late */
+    if (!c->local_addr && have_native6 && vrnd_p(r, 18)) {
+        static const char *const shapes[] = { "6N 4R 6A", "4N 6R 4A", "6N 4R 4R 6N 6A", "6N 4R 6R", "4N 6R 4R", "6N 4N 6A 4A", "6R 4N 6R 4A", "6N 4A", "6A 4N" };
+        const char *sh = shapes[vrnd_n(r, 9)];
+        c->n = 0;
+        for (const char *q = sh; *q; q++) {
+            if (*q == ' ') continue;
+            struct cand *d = &c->c[c->n]; memset(d, 0, sizeof *d);
+            d->v6 = *q == '6'; q++;
+            d->beh = *q == 'A' ? B_ACCEPT : *q == 'R' ? B_REFUSE : B_NOANSWER;
+            if (d->v6) snprintf(d->ip, sizeof d->ip, "fd00:7e57::%x", 0x20 + c->n); else snprintf(d->ip, sizeof d->ip, "127.0.%d.%d", 20 + c->n, 1 + (int)vrnd_n(r, 200));
+            c->n++;
+        }
+        c->shaped = true;
+    }
 }
 
 static void case_json(const struct ccase *c, long idx, uint64_t ss)
@@ -171,7 +188,7 @@ static void one_case(long idx, void *arg)
     }
     xcm_attr_map_destroy(sm);
     case_json(&c, idx, ss);
-    struct xcm_socket *cl = NULL;
+    struct xcm_socket *cl = NULL; int busy_fd = -1;
     if (!setup_ok) { vobs("setup_failed", 1); goto out; }
 
     /* resolver plan */
@@ -204,6 +221,7 @@ static void one_case(long idx, void *arg)
     xcm_attr_map_add_double(cm, "dns.timeout", c.dns_timeout);
     int lport = 0;
     if (c.local_addr && c.local_fixed_port) { const char *lips1[1] = { c.local_ip }; lport = vnet_pick_port(lips1, 1); if (lport < 0) lport = 0; }
+    if (c.local_addr && lport > 0 && c.dres == D_OK && vrnd_p(&r, 30)) { busy_fd = vnet_listen(c.local_ip, lport, 1); if (busy_fd >= 0) { c.local_busy = true; expect_up = false; } }
     if (c.local_addr) { char la[96]; snprintf(la, sizeof la, "%s:%s:%d", c.tp == TP_UTLS_TLS ? "tls" : pr, c.local_ip, lport); xcm_attr_map_add_str(cm, "xcm.local_addr", la); }
     char addr[96]; snprintf(addr, sizeof addr, "%s:m.verif.test:%d", pr, port);     /* utls: the UX attempt is refused, the TLS half resolves the name */
     vs_connect_log_reset();
@@ -227,7 +245,7 @@ static void one_case(long idx, void *arg)
         struct pollfd none; vs_real_poll(&none, 0, 1);
     }
     t_out = vnow() - t0;
-    vobs("connect_scenarios", 1);
+    vobs("connect_scenarios", 1); if (c.shaped) vobs("directed_two_family_shapes", 1);
 
     /* ---- judge ---- */
     int ncl = vs_connect_log_count();
@@ -248,6 +266,14 @@ static void one_case(long idx, void *arg)
     for (int a = 0; a < natt; a++) {
         bool found = false; for (int i = 0; i < neff; i++) { char ls[64]; cand_logstr(&c.c[i], port, ls, sizeof ls); if (!strcmp(ls, attempts[a])) found = true; }
         if (!found) { cv("attempt-outside-list", &c, "connect() to %s, which is not among the %d address(es) the algorithm may use", attempts[a], neff); goto out; }
+    }
+    if (c.local_busy) {
+        vobs("local_address_busy_cases", 1);
+        if (up) { const char *la; { SCX("xcm_local_addr", 0, &plan); la = xcm_local_addr(cl); vs_leave(); } cv("wrong-source-address", &c, "xcm.local_addr %s:%d is taken (every bind fails with EADDRINUSE), yet the connection came up, from %s", c.local_ip, lport, la ? la : "(null)"); }
+        else if (natt > 0) cv("connect-from-unbound-socket", &c, "xcm.local_addr %s:%d is taken, yet connect() was called %d time(s) (first to %s)", c.local_ip, lport, natt, attempts[0]);
+        else if (outcome_errno != EADDRINUSE) cv("failure-errno", &c, "xcm.local_addr is taken; %s reported errno %d (%s), expected EADDRINUSE", observer, outcome_errno, outcome_errno > 0 ? strerror(outcome_errno) : "close");
+        vsig_str("local-busy");
+        goto out;
     }
     if (c.alg != A_HAPPY) {
         /* strictly in list order, each once, stopping at the first that accepts */
@@ -310,6 +336,7 @@ static void one_case(long idx, void *arg)
         vsig_str(sg);
     }
 out:
+    if (busy_fd >= 0) close(busy_fd);
     if (cl) { SCX("xcm_close", 0, &plan); xcm_close(cl); vs_leave(); }
     for (int i = 0; i < c.n; i++) { if (acc[i]) xcm_close(acc[i]); if (srv[i]) xcm_close(srv[i]); if (have_na[i]) vnet_noanswer_close(&na[i]); }
     vdns_enable(false);
